@@ -486,14 +486,77 @@ fn tol_r(ctx: &Ctx, r: Result<(), Violation>) -> Result<(), Violation> {
     }
 }
 
+/// (algorithm of the root key and of each next key, 0 = ed25519 / 1 = secp256r1; key seed)
+type ProofCase = (Vec<u8>, u64);
+
+/// The private key a token carries (the proof of an unsealed token, a protobuf encoding whose
+/// algorithm is the one of the last block's next key) survives serialization for every sequence
+/// of algorithms: the parsed token is the same token, and the key it holds still extends it.
+fn proof_secret_case(case: &ProofCase, rep: &mut Report) -> Result<(), Violation> {
+    use biscuit_auth::builder::{BiscuitBuilder, BlockBuilder};
+    use biscuit_auth::{Biscuit, UnverifiedBiscuit};
+    let (algs, seed) = case;
+    let kp = |i: usize| KeyPlan { alg: if algs[i] == 0 { Alg::Ed } else { Alg::P256 }, seed: seed * 8 + i as u64 }.keypair();
+    rep.evals(1);
+    rep.nontrivial(hash64(case));
+    rep.class(format!("proof-secret:algs={}", algs.iter().map(|a| a.to_string()).collect::<String>()));
+    let r = guard(|| -> Result<(), String> {
+        let root = kp(0);
+        let mut token = BiscuitBuilder::new()
+            .code("user(1)")
+            .map_err(|e| format!("{e:?}"))?
+            .build_with_key_pair(&root, biscuit_auth::datalog::SymbolTable::default(), &kp(1))
+            .map_err(|e| format!("build: {e:?}"))?;
+        for i in 2..algs.len() {
+            // through the bytes at every step: the next block is signed with the key read back
+            let bytes = token.to_vec().map_err(|e| format!("to_vec at step {i}: {e:?}"))?;
+            let parsed = Biscuit::from(&bytes, root.public()).map_err(|e| format!("a token whose next keys have algorithms {:?} does not parse back at step {i}: {e:?}", &algs[1..i]))?;
+            if parsed.to_vec().map_err(|e| format!("{e:?}"))? != bytes {
+                return Err(format!("re-serialization differs at step {i}"));
+            }
+            let unverified = UnverifiedBiscuit::from(&bytes).map_err(|e| format!("unverified parse at step {i}: {e:?}"))?;
+            let via_unverified = unverified
+                .append_with_keypair(&kp(i), BlockBuilder::new().code(format!("step({i})")).map_err(|e| format!("{e:?}"))?)
+                .map_err(|e| format!("unverified append at step {i}: {e:?}"))?;
+            via_unverified
+                .verify(root.public())
+                .map_err(|e| format!("the token extended with the key read back by UnverifiedBiscuit does not verify at step {i}: {e:?}"))?;
+            token = parsed
+                .append_with_keypair(&kp(i), BlockBuilder::new().code(format!("step({i})")).map_err(|e| format!("{e:?}"))?)
+                .map_err(|e| format!("append at step {i}: {e:?}"))?;
+        }
+        let bytes = token.to_vec().map_err(|e| format!("{e:?}"))?;
+        Biscuit::from(&bytes, root.public()).map_err(|e| format!("final token (algorithms {:?}) does not parse back: {e:?}", algs))?;
+        Ok(())
+    });
+    match r {
+        Ok(Ok(())) => Ok(()),
+        Ok(Err(e)) => Err(Violation::new("proof-secret-roundtrip".to_string(), e)),
+        Err(p) => Err(Violation::new(format!("panic:{}", p.site()), p.message)),
+    }
+}
+
 pub fn run(ctx: &Ctx, replay: Option<&serde_json::Value>) {
     if let Some(r) = replay {
+        if r["sub"].as_str() == Some("proof-secret") {
+            let case: ProofCase = serde_json::from_value(r["case"].clone()).expect("bad replay case");
+            ctx.run_list("proof-secret", &[case], |c, r| proof_secret_case(c, r));
+            return;
+        }
         let case: Case = serde_json::from_value(r["case"].clone()).expect("bad replay case");
         ctx.run_list("keys", &[case], |c, r| test_case(ctx, c, r));
         return;
     }
-    ctx.set_rule("keys of both algorithms from seeds x messages of 0-300 bytes: every encoding the API offers (raw, hex, algorithm/hex, PKCS#8 / SPKI DER and PEM with explicit algorithm and auto-detection, protobuf, KeyPair forms) must round-trip and yield the public key derived independently with the primitive crates; a signature verifies exactly under (key, message) and fails for another key, another message and EVERY truncation, extension and single-bit flip of the signature; every truncation / extension / single-bit flip of the raw public key, sampled corruptions of private keys, DER and PEM, algorithm tag swaps and cross-algorithm decoders must give an error or a key that an independent decoder also reads from those bytes; nothing panics; non-trivial = every case (all are corruptions that reach key validation); distinct = hash(case)");
+    ctx.set_rule("keys of both algorithms from seeds x messages of 0-300 bytes: every encoding the API offers (raw, hex, algorithm/hex, PKCS#8 / SPKI DER and PEM with explicit algorithm and auto-detection, protobuf, KeyPair forms) must round-trip and yield the public key derived independently with the primitive crates; a signature verifies exactly under (key, message) and fails for another key, another message and EVERY truncation, extension and single-bit flip of the signature; every truncation / extension / single-bit flip of the raw public key, sampled corruptions of private keys, DER and PEM, algorithm tag swaps and cross-algorithm decoders must give an error or a key that an independent decoder also reads from those bytes; nothing panics; the private key a token carries as proof is round-tripped through serialization for all 16 algorithm sequences of (root, three next keys) and must still extend the parsed token; non-trivial = every case (all are corruptions that reach key validation); distinct = hash(case)");
     ctx.assume("ed25519-dalek and p256 are the trusted base, also used as independent decoders");
+    // the private key inside a token: all 16 algorithm sequences (root, three next keys)
+    let mut proof_cases: Vec<ProofCase> = vec![];
+    for mask in 0..16u8 {
+        for seed in 0..ctx.tier.pick(2, 40) as u64 {
+            proof_cases.push(((0..4).map(|i| (mask >> i) & 1).collect(), 0x17_000 + seed));
+        }
+    }
+    ctx.run_list("proof-secret", &proof_cases, |c, r| proof_secret_case(c, r));
     let cases = ctx.tier.pick(1200, 30_000);
     ctx.run_prop("keys", cases, || from_tape(200, gen_case), |c, r| test_case(ctx, c, r));
 }
